@@ -129,3 +129,6 @@ reg("C13", "truncast")
 reg("C14", "truncast", configs=("utf16",))
 reg("C06", "truncast")
 reg("C17", "apirules", fn="check_scanner")
+reg("C12", "twin", fn="check_countsib")
+reg("C04", "bitgeom")
+reg("C15", "bitgeom")
